@@ -213,6 +213,24 @@ Theorem hooks_rejected_on_frozen : forall c rest,
 Proof. exact hooks_rejected_on_frozen_l. Qed.
 Print Assumptions hooks_rejected_on_frozen.
 
+Theorem hooks_rejected_under_frozen_base : forall c rest,
+  base_frozen rest = true -> c_user_setattr c = None ->
+  (has_cls_on_setattr (c_on_setattr c) = true \/
+   existsb (fun a => negb (os_is_none (a_on_setattr a))) (c_attrs c) = true) ->
+  build_attrs c rest = None.
+Proof. exact hooks_rejected_under_frozen_base_l. Qed.
+Print Assumptions hooks_rejected_under_frozen_base.
+
+(** Without the guard it is false of the code: a [__setattr__] in the class body hides the
+    frozen base from attr.s (finding K06.1). *)
+Theorem hooks_under_frozen_base_refuted :
+  exists c rest d,
+    build_chain [Attrs frozen_root] = Some rest /\ base_frozen rest = true /\
+    has_cls_on_setattr (c_on_setattr c) = true /\
+    build_attrs c rest = Some d /\ is_sa_hooked (lookup_setattr (d :: rest)) = true.
+Proof. exact hooks_under_frozen_base_refuted_l. Qed.
+Print Assumptions hooks_under_frozen_base_refuted.
+
 Theorem define_hooks_rejected_under_frozen_base : forall c rest,
   c_api c = ApiDefine -> base_frozen rest = true -> has_cls_on_setattr (c_on_setattr c) = true ->
   build_attrs c rest = None.
